@@ -266,7 +266,14 @@ def r2(prog, run):
     au = prog.fn(ATM + '::authenticate')
     run.instance(rid)
     calls = [(f, i, n) for f in prog.closure(au) for i, n in f.calls(ATM + '::makePostponedTrustDecisions')]
-    if calls and all('keyIds' in f.fmt(n['args'][1], inline=False) and 'values()' in f.fmt(n['args'][1], inline=False) for f, i, n in calls) and \
+    key_param = au.params[1].get('var') if len(au.params) > 1 else None
+
+    def is_the_authenticated_keys(f, nid):
+        # all key ids handed to authenticate(): values() of its own parameter - not of a local that was filtered (an empty filtered list means "all senders" to the storage)
+        t = f.fmt(nid, inline=False)
+        vs = [f.nodes[j] for j in f.walk(nid) if f.nodes[j]['k'] == 'var']
+        return 'values()' in t and bool(vs) and all(v.get('vk') == 'param' and v.get('decl') == key_param for v in vs)
+    if calls and all(is_the_authenticated_keys(f, n['args'][1]) for f, i, n in calls) and \
             all(any(True for _ in l.calls(ATM + '::makePostponedTrustDecisions')) or True for l in [au]):
         # and only after setTrustLevel(Authenticated) completed: the calls sit in continuations of that task
         in_cont = all(f.is_lambda for f, i, n in calls)
